@@ -160,6 +160,8 @@ def model():
             vj = orm.Optional(orm.Json, volatile=True)              # volatile and non-optimistic attributes are tracked like any other
             varr = orm.Optional(orm.IntArray, volatile=True)
             nj = orm.Optional(orm.Json, optimistic=False)
+            lj = orm.Optional(orm.Json, lazy=True)                 # lazy: fetched by a separate statement at the first attribute access
+            larr = orm.Optional(orm.IntArray, lazy=True)
         db.generate_mapping(create_tables=True)
         with orm.db_session:
             D(j={'k': [1], 'd': {'e': {'f': [0]}}}, arr=[1, 2, 3], n=0, vj={'k': [1]}, varr=[1], nj={'k': [1]})
@@ -241,6 +243,10 @@ def _e2e_configs(tier):
         out.append(dict(where='depth1-dict', op=op, attr='vj')); out.append(dict(where='depth1-dict', op=op, attr='nj'))
     for op in ('append', '+='):
         out.append(dict(where='depth2-list', op=op, attr='vj'))
+    for op in ('__setitem__', 'update', 'nested-after-store', 'pop'):
+        out.append(dict(where='depth1-dict', op=op, attr='lj')); out.append(dict(where='depth3-dict', op=op, attr='lj'))
+    for op in ('append', '+=', 'sort', '__delitem__'):
+        out.append(dict(where='depth2-list', op=op, attr='lj')); out.append(dict(where='array', op=op, attr='larr'))
     return out
 
 
@@ -251,12 +257,12 @@ def _e2e_case(cfg, values):
         try:
             with orm.db_session:
                 doc = {'k': [1, 5], 'd': {'e': {'f': [0, 3]}, 'x': 1}}
-                o = M.D(j=doc, arr=[3, 1, 2], n=0, vj=copy.deepcopy(doc), varr=[3, 1, 2], nj=copy.deepcopy(doc))
+                o = M.D(j=doc, arr=[3, 1, 2], n=0, vj=copy.deepcopy(doc), varr=[3, 1, 2], nj=copy.deepcopy(doc), lj=copy.deepcopy(doc), larr=[3, 1, 2])
                 orm.commit()
                 pk = o.id
             with orm.db_session:
                 o = M.D[pk]
-                isjson = cfg['attr'] in ('j', 'vj', 'nj')
+                isjson = cfg['attr'] in ('j', 'vj', 'nj', 'lj')
                 if isjson:
                     getter = dict((n, g) for n, g, k in _paths())[cfg['where']]
                     kind = dict((n, k) for n, g, k in _paths())[cfg['where']]
